@@ -974,6 +974,17 @@ func ruleTagParser(c *Ctx, rule string) {
 				okKey = false
 			}
 		}
+		// the options are honoured by encoding/json whether or not the name part of the tag is valid
+		var nameGuards []string
+		for _, g := range controlGuards(mu) {
+			if pc, ok := g.Cond.(*ssa.Call); ok {
+				if callee := pc.Call.StaticCallee(); callee != nil && c.P.InPkg(callee) && len(callee.Params) == 1 && tString(callee.Params[0].Type()) && isBoolType(pc.Type()) {
+					nameGuards = append(nameGuards, c.pos(g.At))
+				}
+			}
+		}
+		c.R.Check(len(nameGuards) == 0, rule, fmt.Sprintf("%s:option-key#%d:whatever-the-name", core.FuncName(tp), n), c.pos(mu), "options are recorded whether or not the tag's name part is valid",
+			fmt.Sprintf("whether the tag's options are recorded depends on a predicate on the tag's name (at %v): encoding/json ignores an invalid name but still honours `omitempty`, so for `json:\"it's,omitempty\"` the field is omitted when empty while the schema requires it", nameGuards))
 		c.R.Check(okKey, rule, fmt.Sprintf("%s:option-key#%d", core.FuncName(tp), n), c.pos(mu), "an option is recorded exactly as the comma-separated element of the tag", "a tag option is transformed (trimmed, lower-cased, ...) before it is recorded: encoding/json compares options literally, so `json:\"x, omitempty\"` does not omit the field but the schema would treat it as optional")
 	})
 	c.R.Floor(rule, "recorded tag options", n, 1)
